@@ -18,6 +18,7 @@ RULE = (
     "texts as for C03 (generated segment lists, corpus files with structural truncations/splices/duplications); "
     "each text x strict in {True, False} x format in {auto, SM, SSC}. Non-trivial when the loaded simfile has at "
     "least two properties or a chart; distinct by canonical JSON of the text."
+    ' Round 6: lone surrogate code points in values and long note data; Unicode blanks around compact SM chart fields.'
 )
 EXHAUSTIVE_PART = "thorough: every truncation of the five corpus files at every structural boundary (#, :, ;, line break; before and after it)"
 ASSUMPTIONS = ["msdparser.parse_msd", "the syntactic gap guard is a superset of msdparser's escaping failures"]
